@@ -3,6 +3,7 @@ import Driver.Geom
 import Driver.Cascade
 import Resvg.Convert.Structure
 import Resvg.Convert.SvgSize
+import Resvg.Convert.UseSize
 namespace Driver
 open Resvg Resvg.Geom Resvg.Convert
 
@@ -45,6 +46,21 @@ def handleStructure (op : String) (args : List String) : String :=
           | _ => "bad-op"
       | _, _ => "bad-op"
     | _ => "bad-op"
+  | "usesym", [w, h, vw, vh, dpi, fs] =>
+    -- `use` (width w, height h, `absent` allowed) of a symbol holding <rect width="50%" height="25%"/>,
+    -- in a viewport vw × vh: the clip rectangle, then the size of the rect
+    match parseLen? w, parseLen? h, parseF32? vw, parseF32? vh, parseF32? dpi, parseF32? fs with
+    | some w, some h, some vw, some vh, some dpi, some fs =>
+      let env : Resvg.Convert.LenEnv := ⟨dpi, fs⟩
+      let clip := match useSymbolClip F32.rnd w h vw vh env with
+        | some (cw, ch) => s!"{showSoft cw} {showSoft ch}"
+        | none => "noclip"
+      let v := useSymbolViewport F32.rnd w h vw vh env
+      let cw := symbolChildLen F32.rnd ⟨50, .percent⟩ v.1 env
+      let ch := symbolChildLen F32.rnd ⟨25, .percent⟩ v.2 env
+      let child := if validLen cw && validLen ch then s!"{showSoft cw} {showSoft ch}" else "nochild"
+      s!"{clip} | {child}"
+    | _, _, _, _, _, _ => "bad-op"
   | "rxry", [w, h, rx, ry] =>
     match parseHw? w, parseHw? h, optHw? rx, optHw? ry with
     | some w, some h, some rx, some ry =>
